@@ -176,7 +176,8 @@ class LocationAction(object):
         # Have we fired too quickly?
         last_fire = self.__stats.last_fire
         if last_fire != 0:
-            time_since_last = ts - last_fire
+            # hits of other threads can be recorded out of timestamp order, so look at the distance
+            time_since_last = abs(ts - last_fire)
             if time_since_last < self.__fire_period_ns():
                 return False
 
